@@ -32,6 +32,10 @@ CUSTOMS = {
 # numpy's sampler does not.  Only used by steps that ask for it by name (never drawn by the random generators).
 CUSTOMS_EXTRA = {
     "MyRoundedH": {"matrix": [["0.707107", "0.707107"], ["0.707107", "-0.707107"]], "params": []},
+    # a rotation by a few nanoradians: off-diagonal entries far below the library's 1e-8 "is it zero" tolerance, yet
+    # part of the definition (C05: definitions survive to 1e-12 relative)
+    "MyTiny": {"matrix": [["1", "-2.0e-9*I"], ["-2.0e-9*I", "1"]], "params": []},
+    "MyTinyMixed": {"matrix": [["exp(I*t)", "3.0e-10"], ["-3.0e-10", "exp(-I*t)"]], "params": ["t"]},
 }
 
 
